@@ -21,6 +21,8 @@ pub struct Report {
     pub counters: BTreeMap<String, u64>,
     /// distinct non-trivial case hashes
     pub distinct: BTreeSet<u64>,
+    /// distinct fast-path situations (alignment branch x outcome x size class x finger residue x align x MIN_ALIGN)
+    pub paths: BTreeSet<u64>,
     pub evaluations: u64,
     pub samples: Vec<J>,
     pub notes: Vec<String>,
@@ -70,6 +72,9 @@ impl Report {
             J::Arr(self.distinct.iter().take(20000).map(|h| J::s(format!("{:x}", h))).collect()),
         );
         let mut c = J::obj();
+        if !self.paths.is_empty() {
+            c.set("max_distinct_fast_path_situations_in_one_shard", J::i(self.paths.len() as u64));
+        }
         for (k, v) in &self.counters {
             c.set(k, J::i(*v));
         }
